@@ -145,6 +145,14 @@ MISMATCH = [  # (how, expected bits or None for rejection)
     ("pack('bytes:1', b'a')", lambda b: b.pack('bytes:1', b'a'), '01100001'),
     ("Bits(hex='abc', length=8)", lambda b: b.Bits(hex='abc', length=8), None),
     ("Bits(hex8='abc')", lambda b: b.Bits(hex8='abc'), None),
+    ("Bits(hex='ab', length=0)", lambda b: b.Bits(hex='ab', length=0), None),
+    ("BitArray(bin='1', length=0)", lambda b: b.BitArray(bin='1', length=0), None),
+    ("Bits(hex0='ab')", lambda b: b.Bits(hex0='ab'), None),
+    ("BitStream(bytes0=b'a')", lambda b: b.BitStream(bytes0=b'a'), None),
+    ("Bits(bits='0b1', length=0)", lambda b: b.Bits(bits='0b1', length=0), None),
+    ("Bits(oct='7', length=0)", lambda b: b.Bits(oct='7', length=0), None),
+    ("Bits(hex='', length=0)", lambda b: b.Bits(hex='', length=0), ''),
+    ("Bits(bin0='')", lambda b: b.Bits(bin0=''), ''),
     ("Bits(hex12='abc')", lambda b: b.Bits(hex12='abc'), '101010111100'),
     ("BitArray(bin2='101')", lambda b: b.BitArray(bin2='101'), None),
     ("BitStream(bin4='1')", lambda b: b.BitStream(bin4='1'), None),
@@ -186,8 +194,9 @@ def h_mismatch(i):
     return h
 
 
-def h_bad_digits(cname, t, k):
-    """symbolic code points; valid iff every character is a digit of the base"""
+def h_bad_digits(cname, t, k, with_prefix=False):
+    """symbolic code points; valid iff every character is a digit of the base (with_prefix: the prefix letters may occur anywhere in the text, and
+    the two-character prefix 0x / 0o / 0b - either case - may be repeated, as the test suite pins)"""
     def h(K):
         import bitstring
         cls = classes()[cname]
@@ -195,7 +204,23 @@ def h_bad_digits(cname, t, k):
         strip = {'hex': (120, 88), 'oct': (111, 79), 'bin': (98, 66)}[t]
         cps = [ord(text[j]) for j in range(k)]
         for c in cps:
-            K.assume(c != 95 and c != strip[0] and c != strip[1])
+            K.assume(c != 95)
+            if not with_prefix:
+                K.assume(c != strip[0] and c != strip[1])
+        ndig = k
+        if with_prefix:
+            # the grammar pinned by the test suite ('0x3 0x7' and '0b1' * 20 are accepted once whitespace is gone): every occurrence of the
+            # two-character prefix, scanned from the left, is dropped; what remains must be digits
+            kept = []
+            i = 0
+            while i < k:
+                if i + 1 < k and cps[i] == 48 and (cps[i + 1] == strip[0] or cps[i + 1] == strip[1]):
+                    i += 2
+                    continue
+                kept.append(cps[i])
+                i += 1
+            cps = kept
+            ndig = len(kept)
         valid = True
         for c in cps:
             if t == 'hex':
@@ -209,7 +234,7 @@ def h_bad_digits(cname, t, k):
         for rn, g in {'kw': lambda: cls(**{t: text}), 'Dtype.build': lambda: bitstring.Dtype(t).build(text), 'pack': lambda: bitstring.pack(t, text)}.items():
             r = call(g)
             if valid:
-                if not (r.ok and len(r.value) == w * k):
+                if not (r.ok and len(r.value) == w * ndig):
                     return K.fail('valid digits rejected', route=rn, exc=r.excname)
             elif r.ok or not r.raised(ValueError):
                 return K.fail('invalid digit must raise CreationError (ValueError)', route=rn, exc=r.excname, got=(raw(r.value) if r.ok else None))
@@ -320,6 +345,8 @@ def conditions(tier):
     for t in ('hex', 'oct', 'bin'):
         for k in ([1, 2] if q else [1, 2, 3]):
             add(f'C15.digits[Bits,{t},k={k}]', h_bad_digits('Bits', t, k), f'every string of {k} printable ASCII characters (prefix letters and underscore excluded)', V.D_TEXT, t=t, k=k)
+        for k in ([2] if q else [2, 3]):
+            add(f'C15.digits-prefix[Bits,{t},k={k}]', h_bad_digits('Bits', t, k, True), f'every string of {k} printable ASCII characters (underscore excluded); prefixes may repeat', V.D_TEXT, t=t, k=k)
     for dtype, w, signed in ([('uint5', 5, False), ('int8', 8, True)] if q else [('uint5', 5, False), ('int8', 8, True), ('uint1', 1, False), ('int3', 3, True), ('uintle16', 16, False)]):
         for how in ('setitem', 'slice-step1', 'slice-ext', 'slice-ext-neg', 'slice-ext-count', 'extend', 'append', 'insert', 'init'):
             add(f'C15.array-reject[{dtype},{how}]', h_array_reject(dtype, w, signed, how), f'all data of 4 items x every out-of-range Python int (and an in-range value set before it in the same call)',
